@@ -77,19 +77,22 @@ def mc_and_replay(run, fam, maxact, invs, hosts, need=("MResolve", "MDrop", "MAb
     return len(scheds)
 
 
-CORE_INV = ["AppliedOnce", "PerTaskOrder", "NothingDeferred", "QuietWhenIdle", "ExecTasksReleased", "ReadyClosedCore"]
+CORE_INV = ["AppliedOnce", "PerTaskOrder", "NothingDeferred", "QuietWhenIdle", "ExecTasksReleased", "ReadyClosedCore",
+            "HandedBackOnce"]
 
 
-def mc_core_and_replay(run, maxact, hosts, cap=None):
+def mc_core_and_replay(run, maxact, hosts, cap=None, mode="core"):
     """exhaustive model checking of the core's event loop (CruxCore.tla) over small apps with follow-up
     commands: every poll order, every order of applying queued events, every shell schedule; then every
     terminal behaviour replayed on the real Core / Bridge and validated"""
     path, apps = family_file(run, "apps1")
     cfg = 'SPECIFICATION MSpec\nCONSTANT Sched = "any"\nCONSTANT KFS = {}\n'
     cfg += "".join(f"INVARIANT {i}\n" for i in CORE_INV) + "INVARIANT EmitSched\nCHECK_DEADLOCK FALSE\n"
-    out = lib.mc(run, "MC_Core", cfg, {"APPS": path, "MAXACT": str(maxact)},
-                 need_actions=("MEvent", "MResolve", "MDrop", "MAbort", "MApply", "MReturn"),
-                 label=f"MC_Core[apps1,maxact={maxact}]")
+    need = ("MEvent", "MResolve", "MDrop", "MAbort", "MApply", "MReturn")
+    if mode == "tester":
+        need = ("MEvent", "MResolve", "MDrop", "MAbort", "MTesterReturn", "MFeed")
+    out = lib.mc(run, "MC_Core", cfg, {"APPS": path, "MAXACT": str(maxact), "HOSTMODE": mode},
+                 need_actions=need, label=f"MC_Core[apps1,maxact={maxact},{mode}]")
     scheds = lib.harvest(out)
     if cap and len(scheds) > cap:
         step = len(scheds) / cap
@@ -312,6 +315,7 @@ def c05(run):
     # AppTester (not one of the hosts the property lists; the host every app's unit tests use): same executor,
     # events handed back instead of applied, fed back later in an order the test chooses
     mc_and_replay(run, "scripts", 5 if q else 7, ["ReadyClosed"], ["tester"], cap=600 if q else 10000)
+    mc_core_and_replay(run, 3 if q else 4, ["tester"], cap=800 if q else 20000, mode="tester")
     random_round(run, "tester", run.seed + 9, 400 if q else 6000, ["tester"], "mixed", 3, 20, selftest=True)
     # no wake-up lost inside one executor, whoever hosts it: ExecProtocol.tla on the repository's own tests
     proto_mc(run)
